@@ -19,6 +19,10 @@ class Boom(Exception):
     pass
 
 
+class Late:
+    pass
+
+
 def leaves(e: BaseException) -> list[BaseException]:
     if isinstance(e, BaseExceptionGroup):
         out = []
@@ -30,7 +34,7 @@ def leaves(e: BaseException) -> list[BaseException]:
 
 HANDLERS = ("none", "true", "false", "retnone")
 PLACES = ("F", "deeper", "task", "service", "after")
-BODIES = ("ret", "raise", "forever", "instant", "ret-td")
+BODIES = ("ret", "raise", "forever", "instant", "ret-td", "raise-td")
 
 
 class C09(E1Check):
@@ -63,7 +67,7 @@ class C09(E1Check):
                 for s in spawn_opts:
                     if s["place"] == "after" and fctx == "root":
                         continue
-                    if s["body"] != "raise" and handler not in ("none", "true"):
+                    if s["body"] not in ("raise", "raise-td") and handler not in ("none", "true"):
                         continue
                     progs.append({"fctx": fctx, "handler": handler, "spawns": [s]})
                 pairs = list(itertools.product(spawn_opts, repeat=2))
@@ -72,9 +76,18 @@ class C09(E1Check):
                         continue
                     if a["place"] == "after" and b["place"] != "after":
                         continue
-                    has_raise = "raise" in (a["body"], b["body"])
+                    has_raise = any(x["body"] in ("raise", "raise-td") for x in (a, b))
                     if not has_raise and handler != "none":
                         continue
+                    td_kinds = ("ret-td", "raise-td")
+                    if tier == "quick" and (a["body"] in td_kinds or b["body"] in td_kinds):
+                        # own-context teardown bodies multiply the schedules: keep them next to simple partners from the factory context
+                        if a["body"] in td_kinds and b["body"] in td_kinds:
+                            continue
+                        other = b if a["body"] in td_kinds else a
+                        mine = a if a["body"] in td_kinds else b
+                        if other["body"] not in ("instant", "ret") or other["place"] != "F" or mine["place"] != "F" or other["how"] != "soon" or mine["how"] == "soon-cancel":
+                            continue
                     if tier == "quick":
                         # reduced pairs: second spawn from F or task; keep all body/how combinations
                         if b["place"] not in ("F", "task", "after") or a["place"] in ("service",) and b["place"] == "task":
@@ -155,7 +168,10 @@ class C09(E1Check):
                 snap = tuple(sorted(v.label for v in cur.get_resources(Res).values()))
                 log("body+", i, ok, snap)
                 check_handles(f"body {i} start", False)
-                if kind == "ret-td":
+                late = cur.get_resource_nowait(Late, "late", optional=True)
+                if late is not None:
+                    log("late-factory-visible", i)
+                if kind in ("ret-td", "raise-td"):
                     # the task's own context needs time to tear down: the task has not finished before that
                     st["own_td_pending"].add(i)
 
@@ -170,7 +186,7 @@ class C09(E1Check):
                 try:
                     if kind in ("ret", "ret-td"):
                         await env.gate(f"body{i}")
-                    elif kind == "raise":
+                    elif kind in ("raise", "raise-td"):
                         await env.gate(f"body{i}")
                         exc = Boom(f"task {i}")
                         exc.tag = i  # type: ignore[attr-defined]
@@ -218,7 +234,7 @@ class C09(E1Check):
             st["pending_spawn"].discard(i)
             log("spawned", i)
             htg.start_soon(waiter, i, h)
-            if s["body"] in ("forever", "ret", "ret-td") and s["how"] != "soon-cancel":
+            if s["body"] in ("forever", "ret", "ret-td", "raise-td") and s["how"] != "soon-cancel":
                 def cancel(i: int = i, h: Any = h) -> None:
                     log("cancel", i)
                     st.setdefault("cancelled", set()).add(i)
@@ -238,6 +254,7 @@ class C09(E1Check):
                 st["factory"] = factory
                 st["snapshot"] = tuple(sorted(v.label for v in F.get_resources(Res).values()))
                 F.add_resource(Res("after"), "after")
+                F.add_resource_factory(lambda: Late(), "late", types=Late)  # registered after the task factory started
                 st["F"] = F
                 helpers_go: dict[int, anyio.Event] = {}
                 helpers_done: dict[int, anyio.Event] = {}
@@ -335,6 +352,9 @@ class C09(E1Check):
                     fail("context", f"task {ev[1]} does not run in a fresh context inheriting from the factory's context (or inherits from its spawner)")
                 if ev[3] != st.get("snapshot"):
                     fail("context", f"task {ev[1]} sees resources {ev[3]}, the factory was started with {st.get('snapshot')}")
+        for ev in tr:
+            if ev[0] == "late-factory-visible":
+                fail("context", f"task {ev[1]} can use a resource factory that was added to the owning context after the task factory had been started")
         # waiters
         for i in st["spawned"]:
             w = next((ev for ev in tr if ev[0] == "waited" and ev[1] == i), None)
@@ -345,8 +365,14 @@ class C09(E1Check):
         # handler
         for i, exc in st["raised"].items():
             calls = [c for c in st["handler_calls"] if c is exc]
-            if program["handler"] != "none" and len(calls) != 1:
+            if program["handler"] == "none":
+                continue
+            if len(calls) > 1:
                 fail("handler", f"exception handler was called {len(calls)} times for the exception of task {i}")
+            elif len(calls) == 0 and not (went_down and spawns[i]["body"] == "raise-td"):
+                # (a task whose own context is still tearing down when the application goes down because of another task's
+                # exception is overtaken by that cancellation: its exception then legitimately never reaches the handler)
+                fail("handler", f"exception handler was called 0 times for the exception of task {i}")
         stray = [c for c in st["handler_calls"] if not any(c is e for e in st["raised"].values())]
         if stray:
             fail("handler", f"exception handler was called with {stray!r}, which no task raised")
